@@ -222,6 +222,7 @@ SW = ["the", "of", "it", "m", "bravo", "tango", "sierra", "uniform"]   # for the
 def mdoc_s():
     return st.fixed_dictionaries({"t": st.lists(st.sampled_from(MW), min_size=0, max_size=5),
                                   "s": st.lists(st.sampled_from(SW), min_size=0, max_size=4),
+                                  "f": st.sampled_from([None, True, False]),
                                   "w": st.lists(st.sampled_from(["x", "y", "z"]), max_size=2, unique=True),
                                   "n": st.one_of(st.none(), st.integers(-5, 5))})
 
@@ -233,7 +234,9 @@ def mleaf_s():
         st.builds(lambda x: {"op": "term", "f": "t", "x": x}, word),
         st.builds(lambda x: {"op": "term", "f": "w", "x": x}, st.sampled_from(["x", "y", "z"])),
         st.builds(lambda ws, sl: {"op": "phrase", "f": "t", "words": ws, "slop": sl},
-                  st.lists(word, min_size=2, max_size=3), st.sampled_from([1, 1, 2, 3])),
+                  st.lists(word, min_size=2, max_size=3), st.sampled_from([1, 2, 3, 12, 10])),
+        st.builds(lambda ws, sl: {"op": "phrase", "f": "t", "words": ws, "slop": sl},
+                  st.lists(word, min_size=2, max_size=2, unique=True), st.sampled_from([10, 12, 25])),
         st.builds(lambda x: {"op": "prefix", "f": "t", "x": x}, st.sampled_from(["al", "alf", "b", "c"])),
         st.builds(lambda x: {"op": "wildcard", "f": "t", "x": x}, st.sampled_from(["a*a", "?l*", "*o", "al?a", "*l*"])),
         # (a range with neither bound is not part of the documented language: at least one bound is given)
@@ -247,6 +250,8 @@ def mleaf_s():
                   st.sampled_from(["the", "of", "m", "sierra", "it"]), st.sampled_from([None, "zz", "tango", "the"]),
                   st.booleans(), st.booleans()),
         st.builds(lambda x: {"op": "term", "f": "s", "x": x}, st.sampled_from(["bravo", "tango", "sierra"])),
+        # a BOOLEAN field: true / false / any value
+        st.builds(lambda x: {"op": "bool", "x": x}, st.sampled_from(["true", "false", "*"])),
         st.builds(lambda s, e, se, ee: {"op": "nrange", "f": "n", "start": s, "end": (e if s is not None or e is not None else 0),
                                         "se": se, "ee": ee},
                   st.one_of(st.none(), st.integers(-5, 5)), st.one_of(st.none(), st.integers(-5, 5)),
@@ -303,6 +308,8 @@ def render(q, case, ctx_field="t"):
 
     if op == "term":
         return boost(fld(q["f"], q["x"]), q, True), PREC["leaf"]
+    if op == "bool":
+        return "f:" + q["x"], PREC["leaf"]
     if op == "phrase":
         s = '"%s"' % " ".join(q["words"])
         if q.get("slop", 1) != 1:
@@ -353,6 +360,9 @@ def to_ref(q, group):
         return {"op": "not", "q": to_ref(q["q"], group)}
     if op in ("andnot", "andmaybe", "require"):
         return {"op": op, "a": to_ref(q["a"], group), "b": to_ref(q["b"], group)}
+    if op == "bool":
+        # the BOOLEAN field f, modelled as a one-word text field fb holding "true" / "false"
+        return {"op": "every", "f": "fb"} if q["x"] == "*" else {"op": "term", "f": "fb", "x": q["x"]}
     r = dict((k, v) for k, v in q.items() if k != "boost")
     return r
 
@@ -371,7 +381,8 @@ def ops_in(q):
 
 def run_meaning(case, out):
     schema = fields.Schema(k=fields.ID(stored=True), t=fields.TEXT(analyzer=analysis.SpaceSeparatedTokenizer(), phrase=True),
-                           w=fields.KEYWORD, n=fields.NUMERIC(int), s=fields.TEXT(analyzer=analysis.StandardAnalyzer()))
+                           w=fields.KEYWORD, n=fields.NUMERIC(int), s=fields.TEXT(analyzer=analysis.StandardAnalyzer()),
+                           f=fields.BOOLEAN)
     ix = RamStorage().create_index(schema)
     w = ix.writer()
     docs = []
@@ -380,6 +391,9 @@ def run_meaning(case, out):
         kw = {"k": dd["k"]}
         if d.get("s"):
             kw["s"] = " ".join(d["s"])
+        if d.get("f") is not None:
+            kw["f"] = d["f"]
+        dd["fb"] = [] if d.get("f") is None else ["true" if d["f"] else "false"]
         # what StandardAnalyzer indexes: no stop words, no one-letter words
         dd["s"] = [x for x in (d.get("s") or []) if x not in analysis.STOP_WORDS and len(x) >= 2]
         if d["t"]:
